@@ -18,9 +18,12 @@ from pv.ref import pddl, sexpr
 from pv.runner import Res
 
 ID = "C16"
-RULE = ("generated multi-agent domains (type agent, every action's first parameter is its agent; literals, numeric "
-        "effects, when and forall-when effects) x states x joint actions of 1-4 members of distinct agents with nop "
-        "padding at every position; every permutation of the members.  Interfering-but-applicable joint actions are "
+RULE = ("generated multi-agent domains (type agent, 1-4 agents with prefix-related names, every action's first parameter "
+        "is its agent or - 12 % - the action has no parameter; literals, numeric effects, when and forall-when effects) "
+        "x states x joint actions of 0-4 members with nop padding at every position (4 % all-nop); every permutation of "
+        "the members; through apply_actions and through MultiAgentTrajectoryExporter (one or two steps, the second "
+        "possibly all-nop or inapplicable; a strict call after a lenient one on the same exporter) and back through "
+        "TrajectoryParser.  Interfering-but-applicable joint actions are "
         "outside the property and counted.  Non-trivial = >= 2 non-nop members (>= 2 distinct permutations).  "
         "Distinct by (domain, state, joint action).")
 ASSUMPTIONS = ["non-interference is decided semantically by the reference: all orders executable and confluent",
